@@ -155,6 +155,8 @@ def r1(ctx: Ctx) -> None:
     found = discover_state(ctx)
     for key, writers in sorted(found.items()):
         ctx.site(f"{key[0]}::{key[1]}", "process-wide state", writers=sorted(writers), expected=key in EXPECTED)
+        if key not in EXPECTED and not writers and "." not in key[1] and "@" not in key[1]:
+            continue      # a module-level container / object that nothing writes is a constant, not state
         if key not in EXPECTED:
             ctx.report(f"{key[0]}::{key[1]}", f"new-global-state {key[1]}", f"{key[1]} is process-wide mutable state that is not in the confirmed table "
                        f"(writers: {sorted(writers) or 'none yet'}): a result can depend on what was computed before", lineno=0)
